@@ -366,14 +366,15 @@ Qed.
 
 Definition indent_ok (ind : option wv) : Prop := match ind with None => True | Some v => indent_arg v end.
 
-(* The argument domain.  Everything else the property's quantifier mentions (text non-empty and encodable in the
-   effective encoding, mimetype / type / format legal, metadata a non-empty dict that json.dumps accepts, diff
-   bytes non-empty) follows from the call having been accepted. *)
+(* The argument domain: encodings None or a catalogue spelling of a modelled codec; indent omitted, None or an
+   int >= 0; line_endings None, "dos" or "unix"; the metadata a dict.  Everything else the property's quantifier
+   mentions (text non-empty and encodable in the effective encoding, mimetype / type / format legal, the dict
+   non-empty and accepted by json.dumps, diff bytes non-empty) follows from the call having been accepted. *)
 Definition call_good (c : call) : Prop :=
   match c with
   | NewChange e | NewFile e => enc_ok e
   | WritePreamble _ e ind le _ => enc_ok e /\ indent_ok ind /\ le_arg le
-  | WriteMeta _ e _ => enc_ok e
+  | WriteMeta md e _ => enc_ok e /\ exists kv, md = WDict (JObj kv)
   | WriteDiff _ _ e le => enc_ok e /\ le_arg le
   end.
 
